@@ -301,10 +301,102 @@ def cases_strategy(draw):
 
 
 
+def install_points():
+    from dv import sched, simkernel as sk
+    mods = sk.load_node()
+    A, N, H = mods["application"].Application, mods["node"].Node, mods["_helpers"]
+    return sched.install({A.send_request: None, N.route_request: None, H.SequenceGenerator.next_sequence: None})
+
+
+def concurrent_senders(decisions, nthreads=2):
+    """nthreads application threads call send_request towards one ready connection at the same time; the peer
+    answers every request it received.  One schedule; returns (trace, problems)."""
+    from dv import sched
+    from diameter.message.commands import CreditControlRequest
+    w = W.NodeWorld({"peers": [{"name": "peer1.example", "ip": ["10.1.1.1"]}],
+                     "apps": [{"app_id": 4, "auth": True, "peers": [0], "handler": "answer"}],
+                     "node_timers": {"idle": 5000, "dwa": 50, "cer": 50, "cea": 50, "wakeup": 5}})
+    try:
+        w.start()
+        c = w.handshake_in("peer1.example", auth=[4], ip="10.1.1.1", hbh=0x100)
+        app = w.apps[0]
+        msgs = []
+        for i in range(nthreads):
+            m = CreditControlRequest()
+            m.session_id = f"n;{i}"
+            m.origin_host = W.NODE_HOST.encode()
+            m.origin_realm = W.NODE_REALM.encode()
+            m.destination_realm = W.NODE_REALM.encode()
+            m.service_context_id = "x"
+            m.cc_request_type = 1
+            m.cc_request_number = i
+            m.header.end_to_end_identifier = 0x5100 + i
+            msgs.append(m)
+        n0 = len(c.refresh())
+        ex = sched.Explorer(decisions)
+        sched.attach(w.k, ex)
+        boxes = [w.k.spawn(lambda m=m: app.send_request(m, timeout=3), name=f"sender{i}") for i, m in enumerate(msgs)]
+        ex.armed = True
+        w.k.run()
+        ex.armed = False
+        w.k.run()
+        problems = []
+        reqs = [f for f in c.refresh()[n0:] if f.is_request and f.code == 272]
+        hbhs = [f.h["hbh"] for f in reqs]
+        if len(reqs) != nthreads:
+            problems.append(("requests-written", f"{len(reqs)} requests on the wire for {nthreads} senders"))
+        if len(set(hbhs)) != len(hbhs) or 0 in hbhs:
+            problems.append(("hop-by-hop-not-unique", f"hop-by-hop identifiers of the outstanding requests: {[hex(h) for h in hbhs]}"))
+        for f in reqs:
+            w.feed_msg(c, {"k": "ANS", "host": "peer1.example", "hbh": f.h["hbh"], "e2e": f.h["e2e"]}, run=False)
+        w.k.run()
+        w.advance(4)
+        for i, b in enumerate(boxes):
+            want = 0x5100 + i
+            if not b["done"]:
+                problems.append(("sender-blocked", f"sender {i} still blocked after its answer and its timeout"))
+            elif b["exc"] is not None:
+                problems.append((f"sender-error/{type(b['exc']).__name__}", f"sender {i}: {b['exc']!r} although its answer was delivered"))
+            elif b["result"] is None or b["result"].header.end_to_end_identifier != want:
+                got = None if b["result"] is None else hex(b["result"].header.end_to_end_identifier)
+                problems.append(("wrong-answer", f"sender {i} (end-to-end {want:#x}) was handed the answer {got}"))
+        for sig, d in W.monitor_threads(w):
+            problems.append((f"thread-died/{sig}", d))
+        return ex.trace, problems
+    finally:
+        w.close()
+
+
+def schedule_part(rec, shard, nshards, thorough):
+    from dv import sched
+    from dv.common import fp
+    info = install_points()
+    if shard == 0:
+        rec.extra["preemption_functions"] = info
+    for nthreads, bound in ((2, 3 if thorough else 2), (3, 2 if thorough else 1)):
+        holder = {}
+
+        def run_one(dec, nthreads=nthreads):
+            tr, problems = concurrent_senders(dec, nthreads)
+            holder["last"] = problems
+            return tr
+        n = 0
+        for dec, trace in sched.enumerate_schedules(run_one, bound, shard, nshards):
+            case = {"concurrent_senders": nthreads, "schedule": {str(i): c for i, c in sorted(dec.items())}}
+            for kind, detail in holder["last"]:
+                rec.violation(f"C10/concurrent/{kind}", case, detail)
+            n += 1
+            rec.case(fp("sched", nthreads, tuple(sorted(dec.items()))) if dec else None,
+                     ["schedule-exploration", f"senders:{nthreads}", f"deviations:{len(dec)}"],
+                     sample=lambda: dict(case, choice_points=len(trace)))
+        rec.extra[f"schedules_{nthreads}_senders"] = rec.extra.get(f"schedules_{nthreads}_senders", 0) + n
+
+
 def shard_main(shard, nshards, tier, scale):
     rec = Recorder(PID)
     thorough = tier == "thorough"
     shrunk = set()
+    schedule_part(rec, shard, nshards, thorough)
     n = int((10000 if thorough else 800) * scale)
 
     def body(case):
@@ -319,11 +411,22 @@ def run(tier, scale=1.0):
     rec = Recorder(PID)
     for d in hyp.pool_run(shard_main, (tier, scale)):
         rec.merge(d)
-    required = {"npeers:4": 1, "napps:3": 1, "select:first": 1, "select:None": 1, "state:waiting-dwa": 1,
+    required = {"schedule-exploration": 1, "senders:3": 1, "npeers:4": 1, "napps:3": 1, "select:first": 1, "select:None": 1, "state:waiting-dwa": 1,
                 "state:disconnecting": 1, "state:awaiting": 1, "state:closed": 1, "sends:4": 1}
     return finish(rec, tier=tier, level="exploration", rule=RULE, assumptions=ASSUME, t0=t0,
                   required_classes=required)
 
 
 def replay(doc):
+    case = doc["case"]
+    if "concurrent_senders" in case:
+        install_points()
+        _, problems = concurrent_senders({int(i): c for i, c in case["schedule"].items()}, case["concurrent_senders"])
+        sigs = [f"C10/concurrent/{k}" for k, _ in problems]
+        if doc["signature"] in sigs:
+            print(f"  replayed: {problems[0][1][:300]}")
+            print(f"VIOLATION property={PID} replay=(replay)")
+            return 1
+        print(f"[{PID}] replay: signature {doc['signature']} does not reproduce (got {sigs})")
+        return 0
     return generic_replay(PID, evaluate, doc)
